@@ -362,6 +362,41 @@ def judge_skip(text, schemas, main_bad):
     return calls, bad, labels, ''.join(vector)
 
 
+def judge_bytes(data, schemas, main_bad):
+    """A garbled byte string handed over as `bytes` (not wrapped in BytesIO): the library first decides whether
+    it is a location or XML text.  XMLResource(data) eager and lazy and schema.is_valid(data) must end in a normal
+    return or an XMLSchemaException (text that does not start with '<' is legitimately read as a location, so a
+    refusal is not judged).  Failures equal to the BytesIO call's stay under that call's key."""
+    failed_plain = {(b[0], b[1], b[2]) for b in main_bad}
+    bad, labels, vector = [], [], []
+    todo = [('-/e/resource_bytes', '-/e/resource', lambda: XMLResource(data)),
+            ('-/l/resource_bytes', '-/l/resource', lambda: XMLResource(data, lazy=True))]
+    for v in sorted(schemas):
+        todo.append(('%s/e/is_valid_bytes' % v, '%s/e/is_valid' % v, lambda s=schemas[v]: s.is_valid(data)))
+    gc.disable()
+    for label, plain, fn in todo:
+        try:
+            fn()
+            out = 'ret'
+        except CaseTimeout:
+            raise
+        except BaseException as e:                       # noqa
+            name = type(e).__name__
+            if isinstance(e, XMLResourceError):
+                kind, out = None, name
+            elif isinstance(e, XMLSchemaException):
+                kind, out = 'lax-raised', 'LAXRAISE'
+            else:
+                kind, out = 'escape', 'ESCAPE'
+            if kind and (plain, kind, name) not in failed_plain:
+                bad.append((label, kind, name, str(e)[:120].replace('\n', ' ')))
+            del e
+            gc.collect()
+        labels.append('%s:%s' % (label.split('/')[2], out))
+        vector.append(out[:3])
+    return len(todo), bad, labels, ''.join(vector)
+
+
 def discrepancies(prefix, bad, calls):
     """Groups the bad calls of one document by (kind, exception type): one key per group."""
     groups = {}
@@ -389,15 +424,18 @@ def run_document(acc, prefix, text, entry, case, sigkind, timeout=20.0):
             calls, bad, labels, vector, wf = judge_document(text, entry['schemas'])
             hcalls, hbad, hlabels, hvector = judge_hints(text, entry['hint_schemas'], wf, bad, entry['hint_values'])
             scalls, sbad, slabels, svector = judge_skip(text, entry['schemas'], bad)
+            bcalls, bbad, blabels, bvector = (judge_bytes(text, entry['schemas'], bad) if isinstance(text, bytes)
+                                              else (0, [], [], ''))
     except CaseTimeout:
         acc.ev()
         acc.out('HANG')
         acc.disc('%s|hang' % prefix, '%s: no verdict within %.0f s' % (prefix, timeout), case)
         return
     acc.ev()
-    acc.st(states=1, transitions=calls + hcalls + scalls, traces=1)
-    acc.nt('%s|%s|%s|%s|%s%s' % (entry['id'], sigkind, wf, vector, svector, '|' + hvector if hcalls else ''))
-    for lab in labels + hlabels + slabels:
+    acc.st(states=1, transitions=calls + hcalls + scalls + bcalls, traces=1)
+    acc.nt('%s|%s|%s|%s|%s%s%s' % (entry['id'], sigkind, wf, vector, svector, '|' + hvector if hcalls else '',
+                                   '|' + bvector if bcalls else ''))
+    for lab in labels + hlabels + slabels + blabels:
         acc.out(lab)
     acc.cnt('documents_wellformed' if wf else 'documents_not_wellformed')
     if hcalls:
@@ -411,9 +449,10 @@ def run_document(acc, prefix, text, entry, case, sigkind, timeout=20.0):
                 len(bad) - len(kept) + len(hbad) - len(hkept) + len(sbad) - len(skept))
         bad, hbad, sbad = kept, hkept, skept
     for key, what in (discrepancies(prefix, bad, calls) + discrepancies(prefix + '|hints', hbad, hcalls)
-                      + discrepancies(prefix + '|skip', sbad, scalls)):
+                      + discrepancies(prefix + '|skip', sbad, scalls)
+                      + discrepancies(prefix + '|bytes', bbad, bcalls)):
         acc.disc(key, what, case)
-    return bad + hbad + sbad
+    return bad + hbad + sbad + bbad
 
 
 # --- fault shards -------------------------------------------------------------------------------------
@@ -473,8 +512,28 @@ def run_base(acc, entry):
         acc.disc(key, what, {'kind': 'base', 'doc': entry['id']})
 
 
+DECL_ENCODINGS = ('foo', 'shift_jis', 'idna', 'UTF-16', 'ascii', 'latin1')
+
+
+def decl_text(entry, enc):
+    data = entry['data']
+    if data.startswith(b'<?xml'):
+        data = data[data.index(b'?>') + 2:].lstrip()
+    return b'<?xml version="1.0" encoding="' + enc.encode() + b'"?>' + data
+
+
+def run_decl(acc, entry):
+    """The seed behind an XML declaration naming an unknown / unsupported / mismatching / harmless encoding."""
+    for enc in DECL_ENCODINGS:
+        prefix = 'C11|decl|%s|encoding=%s' % (entry['id'], enc)
+        run_document(acc, prefix, decl_text(entry, enc), entry, {'kind': 'decl', 'doc': entry['id'], 'enc': enc},
+                     'decl-' + enc)
+
+
 def run_trunc(acc, entry):
     run_base(acc, entry)
+    if entry['id'].startswith('seed:'):
+        run_decl(acc, entry)
     data = entry['data']
     for n in range(len(data)):
         prefix = 'C11|trunc|%s|len=%d' % (entry['id'], n)
@@ -801,6 +860,9 @@ def replay(case):
         text = fault_text(entry, items)
         fam = 'fault' if len(items) == 1 else 'fault2'
         prefix = 'C11|%s|%s|%s' % (fam, entry['id'], '+'.join(item_name(entry, it) for it in items))
+    elif kind == 'decl':
+        text = decl_text(entry, case['enc'])
+        prefix = 'C11|decl|%s|encoding=%s' % (entry['id'], case['enc'])
     elif kind == 'trunc':
         text = entry['data'][:case['len']]
         prefix = 'C11|trunc|%s|len=%d' % (entry['id'], case['len'])
@@ -814,8 +876,12 @@ def replay(case):
     scalls, sbad, _sl, _sv = judge_skip(text, entry['schemas'], bad)
     hbad = [b for b in hbad if (b[0], b[1], b[2]) not in entry['base_bad']]
     sbad = [b for b in sbad if (b[0], b[1], b[2]) not in entry['base_bad']]
-    return (discrepancies(prefix, bad, calls) + discrepancies(prefix + '|hints', hbad, hcalls)
-            + discrepancies(prefix + '|skip', sbad, scalls))
+    out = (discrepancies(prefix, bad, calls) + discrepancies(prefix + '|hints', hbad, hcalls)
+           + discrepancies(prefix + '|skip', sbad, scalls))
+    if isinstance(text, bytes):
+        bcalls, bbad, _bl, _bv = judge_bytes(text, entry['schemas'], bad)
+        out += discrepancies(prefix + '|bytes', bbad, bcalls)
+    return out
 
 
 def bounds(tier, seed):
